@@ -33,6 +33,10 @@ func SetMaxRoutines(ctx context.Context, max int) context.Context {
 	var count atomic.Int32
 	ctx = context.WithValue(ctx, "count", &count)
 	limitChan := make(chan struct{}, max)
+	// all permits are handed out before the refill ticker starts: a tick during the fill would take a slot and the fill would block forever
+	for i := 0; i < max; i++ {
+		limitChan <- struct{}{}
+	}
 	go func() {
 		for {
 			select {
@@ -53,9 +57,6 @@ func SetMaxRoutines(ctx context.Context, max int) context.Context {
 			}
 		}
 	}()
-	for i := 0; i < max; i++ {
-		limitChan <- struct{}{}
-	}
 	return context.WithValue(ctx, "limit", limitChan)
 }
 
